@@ -23,9 +23,18 @@ impl HasKey<Secret> for V4 {
     type Key = SecretKey;
 
     fn decode(bytes: &[u8]) -> Result<SecretKey, PasetoError> {
-        crypto_sign::SecretKey::from_bytes(bytes)
-            .map(SecretKey)
-            .map_err(|_| PasetoError::InvalidKey)
+        let key =
+            crypto_sign::SecretKey::from_bytes(bytes).map_err(|_| PasetoError::InvalidKey)?;
+
+        // the second half of a k4.secret must be the public key of the seed in its first half
+        let (seed, public_key) = key.as_bytes().split_at(32);
+        let seed: &[u8; 32] = seed.try_into().map_err(|_| PasetoError::InvalidKey)?;
+        let derived = crypto_sign::keypair_from_seed(seed).map_err(|_| PasetoError::InvalidKey)?;
+        if derived.public_key.as_bytes()[..] != *public_key {
+            return Err(PasetoError::InvalidKey);
+        }
+
+        Ok(SecretKey(key))
     }
     fn encode(key: &SecretKey) -> Box<[u8]> {
         key.0.as_bytes().to_vec().into_boxed_slice()
